@@ -14,3 +14,33 @@ package bitmap
 //@   ensures c == rank(words, i)
 //@   ensures b == bitAt(words, i)
 //@   assigns nothing
+
+//@ func IndexRank64 returns (idx)
+//@   requires len(words) < 1<<25
+//@   ensures isRank64Index(words, idx, len(opts) > 0 && opts[0])
+//@   ensures fresh(idx)
+//@   assigns nothing
+//@   loop 1
+//@     invariant 0 <= i && i <= len(words)
+//@     invariant n == R(words, i)
+//@     invariant forall k int :: 0 <= k && k < i ==> idx[k] == R(words, k)
+
+//@ func IndexRank128 returns (idx)
+//@   requires len(words) < 1<<25
+//@   ensures isRank128Index(words, idx)
+//@   ensures fresh(idx)
+//@   assigns nothing
+//@   loop 1
+//@     invariant 0 <= i && i <= len(words)+1 && i&1 == 0
+//@     invariant len(idx) == i>>1 && fresh(idx)
+//@     invariant n == R(words, ite(i < len(words), i, len(words)))
+//@     invariant forall k int :: 0 <= k && k < len(idx) ==> idx[k] == R(words, 2*k)
+//@     fuel 2
+
+//@ func Rank128 returns (c, b)
+//@   requires len(words) < 1<<25
+//@   requires isRank128Index(words, rindex)
+//@   requires 0 <= i && int(i) < 64*len(words)
+//@   ensures c == rank(words, i)
+//@   ensures b == bitAt(words, i)
+//@   assigns nothing
